@@ -25,8 +25,13 @@ Inductive case :=
 | Scenario (phases : list phase)
 | Rrb (limit : Z) (buf : list N) (code : N) (body : list N) (unread : nat)
 | Precreate (t : N) (known : list N)
-            (bmode : N)            (* second nsqlookupd: 0 none, 1 healthy, 2 its HTTP /channels query fails *)
+            (bmode : N)            (* second nsqlookupd: 0 none, 1 healthy, 2 its HTTP /channels query fails,
+                                      3 removed from nsqd's list before the creation, 4 added to it at run time,
+                                      5 restarted (new process, new ports) and then told known_b *)
             (known_b : list N)     (* what the second one knows *)
+            (tcp_a tcp_b : N)      (* the nsqd -> nsqlookupd TCP connection at the creation (HTTP interface healthy):
+                                      0 connected, 1 cut + reconnects refused, 2 cut + reconnects accepted then closed,
+                                      3 replies withheld, 4 replies replaced by a negative length prefix *)
             (concurrent : bool) (created : list N)
             (queues : list (N * list N)) (first : N) (ok : bool).
 
@@ -79,11 +84,26 @@ Definition judge_rrb (limit : Z) (buf : list N) (code : N) (body : list N) (unre
 Definition n_mem (x : N) (l : list N) : bool := existsb (N.eqb x) l.
 Definition n_sub (a b : list N) : bool := forallb (fun x => n_mem x b) a.
 
-Definition pre_ops (t : N) (known : list N) (bmode : N) (known_b : list N) (concurrent : bool) : list op :=
-  (if bmode =? 0 then [Reconfigure [0%nat]; FKnown 0%nat (map (fun c => (t, c)) known)]
-   else [Reconfigure [0%nat; 1%nat]; FKnown 0%nat (map (fun c => (t, c)) known);
-         FKnown 1%nat (map (fun c => (t, c)) known_b)]
-        ++ (if bmode =? 2 then [FHttp 1%nat false] else []))
+Definition neg_prefix : list N := [255; 255; 255; 255].
+
+(* the fault on link a (a script long enough to outlast every later heartbeat of the case),
+   followed by enough heartbeats for nsqd to have noticed *)
+Definition tcp_ops (a : nat) (m : N) : list op :=
+  if m =? 1 then [FReply a [RClose]; Tick; FAccept a (AClose :: repeat ARefuse 12); Tick; Tick]
+  else if m =? 2 then [FReply a [RClose]; Tick; FAccept a (repeat AClose 12); Tick; Tick]
+  else if m =? 3 then [FReply a (repeat RStall 12); Tick]
+  else if m =? 4 then [FReply a (repeat (RBytes neg_prefix) 12); Tick; Tick]
+  else [].
+
+Definition pre_ops (t : N) (known : list N) (bmode : N) (known_b : list N) (tcp_a tcp_b : N) (concurrent : bool) : list op :=
+  let ka := map (fun c => (t, c)) known in
+  let kb := map (fun c => (t, c)) known_b in
+  (if bmode =? 0 then [Reconfigure [0%nat]; FKnown 0%nat ka]
+   else if bmode =? 4 then [Reconfigure [0%nat]; Reconfigure [0%nat; 1%nat]; FKnown 0%nat ka; FKnown 1%nat kb]
+   else if bmode =? 5 then [Reconfigure [0%nat; 1%nat]; FDown 1%nat; FUp 1%nat; Tick; Tick; FKnown 0%nat ka; FKnown 1%nat kb]
+   else [Reconfigure [0%nat; 1%nat]; FKnown 0%nat ka; FKnown 1%nat kb]
+        ++ (if bmode =? 2 then [FHttp 1%nat false] else if bmode =? 3 then [Reconfigure [0%nat]] else []))
+  ++ tcp_ops 0%nat tcp_a ++ (if bmode =? 0 then [] else tcp_ops 1%nat tcp_b)
   ++ [TopicCreate t]
   ++ (if concurrent then [Put t 2; Pump t] else [])
   ++ repeat (TopicAdvance t) (2 + length known + length known_b)
@@ -101,10 +121,10 @@ Fixpoint assoc_q (c : N) (l : list (N * list N)) : option (list N) :=
   | (k, q) :: r => if N.eqb k c then Some q else assoc_q c r
   end.
 
-Definition judge_pre (t : N) (known : list N) (bmode : N) (known_b : list N) (concurrent : bool) (created : list N)
-                     (queues : list (N * list N)) (first : N) (ok : bool) : bool * bool :=
+Definition judge_pre (t : N) (known : list N) (bmode : N) (known_b : list N) (tcp_a tcp_b : N) (concurrent : bool)
+                     (created : list N) (queues : list (N * list N)) (first : N) (ok : bool) : bool * bool :=
   let agree :=
-    match run repo_cfg (Run init) (pre_ops t known bmode known_b concurrent) with
+    match run repo_cfg (Run init) (pre_ops t known bmode known_b tcp_a tcp_b concurrent) with
     | Run s =>
         let mq := model_queues s t in
         let mc := map fst mq in
@@ -113,9 +133,10 @@ Definition judge_pre (t : N) (known : list N) (bmode : N) (known_b : list N) (co
         Nat.eqb (length queues) (length created)
     | Crashed => false
     end in
-  (* the property on the observation alone: every non-ephemeral channel known to an ANSWERING
-     nsqlookupd exists and got the first message first; nothing else was created *)
-  let answering := known ++ (if bmode =? 1 then known_b else []) in
+  (* the property on the observation alone: every non-ephemeral channel known to a nsqlookupd of
+     nsqd's list whose HTTP interface ANSWERS exists and got the first message first — whatever the
+     state of the TCP connection to it (tcp_a, tcp_b do not occur here); nothing else was created *)
+  let answering := known ++ (if (bmode =? 1) || (bmode =? 4) || (bmode =? 5) then known_b else []) in
   let monitor :=
     ok &&
     forallb (fun c => if eph c then negb (n_mem c created)
@@ -129,6 +150,7 @@ Definition judge (c : case) : N :=
     match c with
     | Scenario ps => judge_phases (Run init) ps
     | Rrb limit buf code body unread => judge_rrb limit buf code body unread
-    | Precreate t known bmode known_b conc created queues first ok => judge_pre t known bmode known_b conc created queues first ok
+    | Precreate t known bmode known_b tcp_a tcp_b conc created queues first ok =>
+        judge_pre t known bmode known_b tcp_a tcp_b conc created queues first ok
     end in
   verdict a m.
